@@ -202,8 +202,9 @@ def build(tier):
                 {"known_nodes": f"0..{N} with symbolic ids in 0..255"},
                 goals=["response", "no-response"],
                 doc="id request from an arbitrary id constellation"),
-        Harness("history", history(["1.4", "2.2"] if q else C.VERSIONS, 2 if q else 3),
-                {"events": f"{2 if q else 3} x (node presentation, id request)",
+        Harness("history", history(["1.4", "2.2"] if q else C.VERSIONS, 2),
+                {"events": "2 x (node presentation, id request)",
+                 "versions": ["1.4", "2.2"] if q else C.VERSIONS,
                  "fields": "unbounded ints (node, child, ack)"}, goals=["response"],
                 doc="ids handed out after arbitrary accepted traffic from the empty gateway"),
         Harness("stop-restart", restart(["1.4", "2.2"] if q else C.VERSIONS, ["json", "pickle"], N),
